@@ -32,31 +32,33 @@ def type_of_value(ex, d):
     return Agg('Type', {}, simp(td), {}, tn)
 
 
-def operators(db):
+def operators(db, src='stdlib.rs'):
     """{name: {'call': fn, 'signature': fn}} for every `impl Callable for X` in stdlib.rs"""
     out = {}
     for meth in ('call', 'signature'):
         for f in db.by_method.get(meth, []):
-            if not f.params or 'stdlib.rs' not in f.name:
+            if not f.params or src not in f.name:
                 continue
-            m = re.match(r'^&(?:stdlib::)?([A-Za-z]+)$', f.params[0][1].strip())
+            m = re.match(r'^&(?:[a-z_:]+::)?([A-Za-z]+)$', f.params[0][1].strip())
             if m and len(f.params) == 3:
                 out.setdefault(m.group(1), {})[meth] = f
     return out
 
 
-SKIP = {'Scope', 'Like', 'NotLike', 'Split', 'StringConcat', 'ToString', 'ToInteger', 'Access', 'IsMemberOf', 'Index', 'Test', 'If'}
-ARITY = {'Not': 1, 'BitNot': 1, 'Negative': 1}
-DYNAMIC_ERRORS = {'Divide', 'Mod'}      # division by zero / overflow are the property's allowed dynamic errors
+SKIP = {'Scope', 'Like', 'NotLike', 'Split', 'StringConcat', 'Access', 'IsMemberOf', 'Index', 'Test', 'If'}
+ARITY = {'Not': 1, 'BitNot': 1, 'Negative': 1, 'ToString': 1, 'ToInteger': 1}
+DYNAMIC_ERRORS = {'Divide', 'Mod', 'ToInteger'}      # division by zero / overflow are the property's allowed dynamic errors
 
 
-def spec_operator(ck, db, name, fns):
+def spec_operator(ck, db, name, fns, n=None, sig_only=False):
     sig, call = fns.get('signature'), fns.get('call')
     if sig is None or call is None:
         return
     ck.target(sig)
-    ck.target(call)
-    n = ARITY.get(name, 2)
+    if not sig_only:
+        ck.target(call)
+    if n is None:
+        n = ARITY.get(name, 2)
     ex = ck.engine(db=db, loop_bound=5)
     ex.benign_havoc = re.compile(r'Clone>::clone|Deref|format|Debug|Display|err_msg|context|String as PartialOrd>::(?:gt|ge|lt|le)')
     ex.eq_bound = 6
@@ -82,6 +84,10 @@ def spec_operator(ck, db, name, fns):
     me = Ref(st.alloc(Opaque(name, 'self')), ())
     ctxarg = Ref(st.alloc(Opaque('ScriptContext', 'ctx')), ())
     sig_outs = ex.call_fn(st, sig, [me, ctxarg, Ref(args_cell, ())])
+    if sig_only:
+        # every panic site reached inside `signature` becomes an obligation when the finals are absorbed
+        ck.absorb(ex, 'milu-arity %s/%d' % (name, n), list(sig_outs))
+        return
     tn = ex.si.enums['Type']
     accepted = 0
     all_finals = list(sig_outs)
@@ -121,24 +127,267 @@ def spec_operator(ck, db, name, fns):
 
 def replay_plan(ob):
     f = ob.finding
-    if f is None or not (ob.target or '').startswith('milu '):
+    tgt = ob.target or ''
+    if f is None or not tgt.startswith(('milu ', 'milu-arity ', 'milu-views ')):
         return None
-    name = ob.target.split(' ', 1)[1]
+    name = tgt.split(' ', 1)[1].split('/')[0]
     i = f.inputs
-    operands = []
-    k = 0
-    while ('arg%d_kind' % k) in i:
-        iv = i.get('arg%d_int' % k, 0)
+
+    def lit(h):
+        iv = i.get(h + '_int', 0)
         if iv >= 1 << 63:
             iv -= 1 << 64
-        operands.append({'kind': i['arg%d_kind' % k], 'int': iv, 'bool': bool(i.get('arg%d_bool' % k)), 'str': i.get('arg%d_str' % k, {}).get('hex', '')})
-        k += 1
+        return {'kind': i.get(h + '_kind', 0), 'int': iv, 'bool': bool(i.get(h + '_bool')), 'str': (i.get(h + '_str') or {}).get('hex', '')}
+    operands = []
+    if tgt.startswith('milu-views '):
+        for k, cls in enumerate(tgt.split(' ', 1)[1].split('/')[1].split('+')):
+            o = lit('arg%d' % k) if cls in ('lit', 'bound') else {'elems': [lit('arg%d_e%d' % (k, e)) for e in range(2)]}
+            o['class'] = cls
+            operands.append(o)
+    else:
+        k = 0
+        while ('arg%d_kind' % k) in i:
+            operands.append(lit('arg%d' % k))
+            k += 1
     case = {'driver': 'op', 'args': {'op': name, 'operands': operands}}
+    if ob.target.startswith('milu-arity '):
+        drv = 'script_ext' if name in EXT_FUNCS else 'milu_stdlib'
+        return drv, case, lambda o: bool(o.get('sig_panicked'))
     if ob.label.startswith('C08/') and 'never-fail-at-evaluation' in ob.label:
         return 'milu_stdlib', case, lambda o: o.get('sig_ok') and o.get('call_ok') is False
     if ob.label.startswith('C08/') and 'result-has-the-type' in ob.label:
         return 'milu_stdlib', case, lambda o: o.get('sig_ok') and o.get('call_ok') and o.get('sig') not in (o.get('value_type'), 'any')
     return 'milu_stdlib', case, lambda o: bool(o.get('sig_ok')) and bool(o.get('panicked'))
+
+
+# =========================================================================== operands that are not literals: let-bound names and arrays
+#
+# A rule's operands are rarely literals: `let a=[1,2] in a[0]`, `request.target.port + 1`.  Such an operand has four "views"
+# (Value::type_of / real_type_of / value_of / real_value_of, script.rs) and an operator is sound only if its `signature` and its
+# `call` look at matching views.  Here the real four functions, the real ScopeBinding and the real Vec<Value> Indexable are
+# executed; only ScriptContext::lookup (a HashMap probe) is replaced by the table of bindings the spec set up.
+
+CLASSES = ('lit', 'bound', 'array', 'bound_array')
+
+
+def _mk_operand(ex, st, cls, hint, bindings, parts):
+    vn = ex.si.enums['Value']
+
+    def lit(h):
+        v, d, i, b, s = sym_value(ex, st, h)
+        parts.update({h + '_kind': d, h + '_int': i, h + '_bool': b, h + '_str': s})
+        return v
+    if cls in ('lit', 'bound'):
+        inner = lit(hint)
+    else:
+        n = 2
+        elems = [lit('%s_e%d' % (hint, k)) for k in range(n)]
+        inner = Agg('Value', {}, vn.index('Array'), {vn.index('Array'): {0: Ref(st.alloc(SeqV.from_items(elems, 'Value', 'vec')), ())}}, vn)
+    if cls in ('lit', 'array'):
+        return inner
+    name = 'v_' + hint
+    sb = Agg('ScopeBinding', {0: Ref(st.alloc(Opaque('ScriptContext', 'outer')), ()), 1: inner})
+    boxed = Ref(st.alloc(Ref(st.alloc(sb), ())), ())          # Arc<Box<dyn NativeObject>>
+    bindings[name] = Agg('Value', {}, vn.index('NativeObject'), {vn.index('NativeObject'): {0: boxed}}, vn)
+    return Agg('Value', {}, vn.index('Identifier'), {vn.index('Identifier'): {0: Bytes.from_py(name.encode(), 'string')}}, vn)
+
+
+def spec_operator_views(ck, db, name, fns, classes, in_range=False):
+    sig, call = fns.get('signature'), fns.get('call')
+    if sig is None or call is None:
+        return
+    ck.target(sig)
+    ck.target(call)
+    ex = ck.engine(db=db, loop_bound=5)
+    ex.benign_havoc = re.compile(r'Clone>::clone|Deref|format|Debug|Display|err_msg|context|String as PartialOrd>::(?:gt|ge|lt|le)')
+    ex.eq_bound = 6
+    ex.iter_bound = 4
+    st = State()
+    bindings, parts, vals = {}, {}, []
+    for k, cls in enumerate(classes):
+        vals.append(_mk_operand(ex, st, cls, 'arg%d' % k, bindings, parts))
+    ex.inputs = parts
+    if in_range and 'arg1_int' in parts:
+        # an index that names an existing element of the 2-element array: no dynamic error is left, so evaluation must succeed
+        ex.assume(st, z3.And(parts['arg1_int'].t >= 0, parts['arg1_int'].t < 2))
+    args_cell = st.alloc(SeqV.from_items(vals, 'Value', 'slice'))
+
+    def lookup(ctx):
+        b = ctx.ex.deref(ctx.st, ctx.args[1])
+        try:
+            nm = bytes(concrete(x) for x in b.conc).decode()
+        except Exception:
+            return NotImplemented
+        if nm in bindings:
+            return C.mk_result(ctx.ex, ok=bindings[nm])
+        return C.mk_result(ctx.ex, err=Opaque('easy_error::Error', 'undefined'))
+    ex.overrides.append((re.compile(r'ScriptContext::lookup$'), lookup))
+    me = Ref(st.alloc(Opaque(name, 'self')), ())
+    ctxarg = Ref(st.alloc(Opaque('ScriptContext', 'ctx')), ())
+    tag = 'milu-views %s/%s%s' % (name, '+'.join(classes), '/in-range' if in_range else '')
+    sig_outs = ex.call_fn(st, sig, [me, ctxarg, Ref(args_cell, ())])
+    tn, vn = ex.si.enums['Type'], ex.si.enums['Value']
+    all_finals = list(sig_outs)
+    for s in sig_outs:
+        if s.status != 'returned':
+            continue
+        okS, ty = _ok_payload(s.ret)
+        if _is_err_concrete(s.ret) or ty is None:
+            continue
+        s2 = s.fork()
+        s2.frames = []
+        s2.status = 'running'
+        try:
+            ex.assume(s2, okS)
+        except Exception:
+            continue
+        outs = ex.call_fn(s2, call, [me, ctxarg, Ref(args_cell, ())])
+        all_finals += outs
+        for o in outs:
+            if o.status != 'returned':
+                continue
+            okC, val = _ok_payload(o.ret)
+            if name not in DYNAMIC_ERRORS and (name not in VIEW_DYNAMIC or in_range):
+                ex.prove(o, 'C08/%s/accepted-operands-never-fail-at-evaluation' % name, okC)
+            if val is None or not isinstance(val, Agg) or val.discr is None or not isinstance(ty, Agg):
+                continue
+            vd = BV(val.discr, 64) if isinstance(val.discr, int) else val.discr
+            td = BV(ty.discr, 64) if isinstance(ty.discr, int) else ty.discr
+            scalar = z3.Or([vd == BV(vn.index(x), 64) for x in ('Integer', 'Boolean', 'String')])
+            exp = type_of_value(ex, vd)
+            expd = BV(exp.discr, 64) if isinstance(exp.discr, int) else exp.discr
+            ex.prove(o, 'C08/%s/result-has-the-type-the-checker-promised' % name,
+                     z3.Implies(z3.And(okC, scalar), z3.Or(td == expd, td == BV(tn.index('Any'), 64))))
+    ck.absorb(ex, tag, all_finals)
+
+
+VIEW_DYNAMIC = {'Index'}          # index out of range is one of the property's allowed dynamic errors
+VIEW_OPS = {'Index': [('array', 'lit'), ('bound_array', 'lit'), ('array', 'bound'), ('bound_array', 'bound'), ('lit', 'lit'), ('bound', 'lit')]}
+
+
+def spec_views(ck, db, thorough=False):
+    ops = operators(db)
+    done = []
+    for name in sorted(ops):
+        if name in ('Scope', 'Test', 'Access', 'Like', 'NotLike', 'Split', 'StringConcat', 'IsMemberOf', 'If'):
+            continue
+        n = ARITY.get(name, 2)
+        if name in VIEW_OPS:
+            combos = VIEW_OPS[name]
+        elif n == 1:
+            combos = [('bound',)] + ([('array',), ('bound_array',)] if thorough else [])
+        else:
+            combos = [('bound', 'lit'), ('lit', 'bound'), ('bound', 'bound')]
+            if thorough:
+                combos += [(a, b) for a in CLASSES for b in CLASSES if (a, b) not in combos and (a, b) != ('lit', 'lit')]
+        for c in combos:
+            spec_operator_views(ck, db, name, ops[name], c)
+            if name in VIEW_DYNAMIC:
+                spec_operator_views(ck, db, name, ops[name], c, in_range=True)
+        done.append(name)
+    ck.bounds['operand views'] = ('%s applied to operands that are literals, let-bound names of literals, 2-element arrays of literals or let-bound names of '
+                                  'such arrays (%s); Value::type_of/real_type_of/value_of/real_value_of, ScopeBinding and Vec<Value>::get are the '
+                                  'real code, ScriptContext::lookup is the binding table' % (', '.join(done), 'all class pairs' if thorough else 'bound/literal pairs; all array pairs for Index'))
+
+
+EXT_FUNCS = set()
+
+
+def named_functions(ck):
+    """builtins a rule can call by name with any number of arguments: the `X::stub()` entries put into a script context"""
+    out = {}
+    for rel, src in ck.si.files.items():
+        for m in re.finditer(r'"([a-z_0-9]+)"\.to_string\(\)\s*,\s*(?:stdlib::)?([A-Za-z]+)::stub\(\)', src):
+            out[m.group(2)] = (m.group(1), rel)
+    return out
+
+
+def spec_arity(ck):
+    """a function called by name receives whatever number of arguments the rule's author wrote (the parser does not know
+    arities): the checker must reject a wrong count, not run off the end of the argument list"""
+    named = named_functions(ck)
+    done = []
+    for cls, (fname, rel) in sorted(named.items()):
+        dbn = 'milu' if rel.startswith('milu/') else 'bin'
+        db = ck.dbs[dbn]
+        ops = operators(db)     # macro-generated impls carry the macro's own source position, in either crate
+        if cls not in ops:
+            ck.add('C08/arity/%s' % cls, 'undecided', 'anchor_missing: no Callable impl found for %s' % cls)
+            continue
+        if dbn != 'milu':
+            EXT_FUNCS.add(cls)
+        for n in range(0, 4):
+            spec_operator(ck, db, cls, ops[cls], n=n, sig_only=True)
+        done.append('%s (%s)' % (fname, cls))
+    ck.bounds['arity'] = 'Callable::signature of every function nameable from a rule [%s] on 0..3 literal arguments' % ', '.join(done)
+
+
+def spec_access_tuple(ck, db):
+    """`t.N` on a tuple literal: for every tuple length 0..3 and every integer N the checker either rejects the expression or
+    promises the type of element N -- it never panics (a rule is checked when it is loaded or POSTed to the API)"""
+    ops = operators(db)
+    if 'Access' not in ops or 'signature' not in ops['Access']:
+        ck.add('C08/Access/tuple-index', 'undecided', 'anchor_missing: Access::signature')
+        return
+    sig = ck.target(ops['Access']['signature'])
+    tn, vn = ck.si.enums['Type'], ck.si.enums['Value']
+    for n in range(0, 4):
+        ex = ck.engine(db=db, loop_bound=5)
+        ex.benign_havoc = re.compile(r'Clone>::clone|Deref|format|Debug|Display|err_msg|context')
+        st = State()
+        elems, tys, parts = [], [], {}
+        for k in range(n):
+            v, d, i, b, s = sym_value(ex, st, 'elem%d' % k)
+            elems.append(v)
+            tys.append(type_of_value(ex, d))
+            parts['elem%d_kind' % k] = d
+        idx = Int(z3.BitVec('index', 64), 64, True)
+        parts['index'] = idx
+        ex.inputs = parts
+        tup = Agg('Value', {}, vn.index('Tuple'), {vn.index('Tuple'): {0: SeqV.from_items(elems, 'Value', 'vec')}}, vn)
+        ival = Agg('Value', {}, vn.index('Integer'), {vn.index('Integer'): {0: idx}}, vn)
+        args_cell = st.alloc(SeqV.from_items([tup, ival], 'Value', 'slice'))
+
+        def type_of(ctx, tys=tys):
+            v = ctx.ex.deref(ctx.st, ctx.args[0])
+            if isinstance(v.discr, int) and v.discr == vn.index('Tuple'):
+                return C.mk_result(ctx.ex, ok=Agg('Type', {}, tn.index('Tuple'), {tn.index('Tuple'): {0: SeqV.from_items(list(tys), 'Type', 'vec')}}, tn))
+            d = v.discr if not isinstance(v.discr, int) else BV(v.discr, 64)
+            return C.mk_result(ctx.ex, ok=type_of_value(ctx.ex, d))
+        ex.overrides.append((re.compile(r'Value::real_type_of$|Evaluatable>::real_type_of$|Evaluatable>::type_of$|Value::type_of$'), type_of))
+        me = Ref(st.alloc(Opaque('Access', 'self')), ())
+        ctxarg = Ref(st.alloc(Opaque('ScriptContext', 'ctx')), ())
+        outs = ex.call_fn(st, sig, [me, ctxarg, Ref(args_cell, ())])
+        for o in outs:
+            if o.status != 'returned':
+                continue
+            okS, ty = _ok_payload(o.ret)
+            if ty is None or not isinstance(ty, Agg):
+                continue
+            td = BV(ty.discr, 64) if isinstance(ty.discr, int) else ty.discr
+            exp = z3.BoolVal(False)
+            for k in range(n):
+                ek = tys[k].discr if not isinstance(tys[k].discr, int) else BV(tys[k].discr, 64)
+                exp = z3.Or(exp, z3.And(idx.t == BV(k, 64), td == ek))
+            ex.prove(o, 'C08/Access/accepted-tuple-index-names-an-element-and-its-type', z3.Implies(okS, exp))
+        ck.absorb(ex, 'milu-access-tuple %d' % n, list(outs))
+    ck.plans.append(access_tuple_replay_plan)
+    ck.bounds['Access'] = 'Access::signature on tuple literals of 0..3 scalar elements and every i64 index'
+
+
+def access_tuple_replay_plan(ob):
+    f = ob.finding
+    if f is None or not (ob.target or '').startswith('milu-access-tuple '):
+        return None
+    n = int(ob.target.split(' ')[1])
+    i = f.inputs
+    iv = i.get('index', 0)
+    if iv >= 1 << 63:
+        iv -= 1 << 64
+    case = {'driver': 'access_tuple', 'args': {'kinds': [i.get('elem%d_kind' % k, 0) for k in range(n)], 'index': iv}}
+    if ob.label.startswith('C08/Access/'):
+        return 'milu_stdlib', case, lambda o: bool(o.get('sig_ok')) and not o.get('type_matches_element')
+    return 'milu_stdlib', case, lambda o: bool(o.get('sig_panicked'))
 
 
 def run_all(ck, db):
@@ -226,3 +475,81 @@ def type_eq_replay_plan(ob):
     exp = len(l) == len(r) and all(x == y or x == ANY or y == ANY for x, y in zip(l, r))
     case = {'driver': 'type_eq', 'args': {'lhs': l, 'rhs': r, 'tuple': tup}}
     return 'milu_script', case, lambda o: o.get('equal') is not None and o.get('equal') != exp
+
+
+# =========================================================================== request.* accessors: declared type == type of the value handed out
+
+def spec_accessors(ck):
+    """for every field name of the native objects exposed to rules (rules/script_ext.rs): type_of(name) names the type of the
+    value get(name) returns -- otherwise the checker accepts expressions that fail (or rejects ones that work) at request time"""
+    db = ck.db
+    ck.plans.append(accessor_replay_plan)
+    tn = ck.si.enums['Type']
+    KIND = {'String': tn.index('String'), 'Integer': tn.index('Integer'), 'Boolean': tn.index('Boolean')}
+
+    def into_value(ctx):
+        m = re.match(r'^<(.*) as Into<(?:milu::script::)?Value>>::into$', ctx.callee)
+        src = m.group(1).strip() if m else ''
+        if re.match(r'^(?:&str|&?std::string::String|String|&std::string::String)$', src):
+            k = 'String'
+        elif re.match(r'^[iu](?:8|16|32|64|size)$', src):
+            k = 'Integer'
+        elif src == 'bool':
+            k = 'Boolean'
+        else:
+            return NotImplemented
+        return Agg('milu::Value', {0: ctx.args[0]}, None, {}, None, ty=k)
+    for recv, names in (('TargetAddress', ['host', 'port', 'type']), ('SocketAddress', ['host', 'port', 'type']),
+                        ('ContextAdaptor', ['listener', 'connector', 'feature'])):
+        g = ck.find(lambda r=recv: db.method(r, 'get', trait='Accessible'), '%s::get' % recv)
+        t = ck.find(lambda r=recv: db.method(r, 'type_of', trait='Accessible'), '%s::type_of' % recv)
+        if g is None or t is None:
+            continue
+        for nm in names:
+            ex = ck.engine(loop_bound=4)
+            ex.benign_havoc = re.compile(r'.')
+            ex.havoc_result_ok = True
+            ex.overrides.append((re.compile(r' as Into<(?:milu::script::)?Value>>::into$'), into_value))
+            st = State()
+            me = Ref(st.alloc(Opaque(recv, 'self')), ())
+            name = Ref(st.alloc(Bytes.from_py(nm.encode(), 'str')), ())
+            gf = ex.call_fn(st.fork(), g, [me, name])
+            tf = ex.call_fn(st.fork(), t, [me, name, Ref(st.alloc(Opaque('ScriptContext', 'ctx')), ())])
+            kinds = set()
+            for s in gf:
+                if s.status == 'returned' and isinstance(s.ret, Agg) and s.ret.discr == 0:
+                    v = s.ret.variants[0][0]
+                    kinds.add(getattr(v, 'ty', None) if isinstance(v, Agg) else None)
+            tys = set()
+            for s in tf:
+                if s.status == 'returned' and isinstance(s.ret, Agg) and s.ret.discr == 0:
+                    ty = s.ret.variants[0][0]
+                    tys.add(ty.discr if isinstance(ty, Agg) and isinstance(ty.discr, int) else None)
+            label = 'C08/accessor/%s.%s-declared-type-is-the-type-of-its-value' % (recv, nm)
+            if len(kinds) == 1 and len(tys) == 1 and None not in kinds and None not in tys:
+                k = kinds.pop()
+                d = tys.pop()
+                if d == KIND[k]:
+                    ck.add(label, 'discharged', 'value kind %s, declared %s' % (k, tn[d]), None, recv)
+                else:
+                    f = engine_finding(label, 'value is %s, declared type is %s' % (k, tn[d]), {'object': recv, 'field': nm, 'value_kind': k, 'declared_type': tn[d]})
+                    ck.add(label, 'violated', 'value is %s, declared type is %s' % (k, tn[d]), f, recv)
+            else:
+                ck.add(label, 'inconclusive', 'could not determine value kind %r / declared type %r' % (kinds, tys), None, recv)
+    ck.bounds['accessors'] = 'every (native object, field name) pair of script_ext.rs whose type_of is a constant'
+
+
+def accessor_replay_plan(ob):
+    if not ob.label.startswith('C08/accessor/') or ob.finding is None:
+        return None
+    i = ob.finding.inputs
+    if i.get('object') not in ('TargetAddress', 'SocketAddress'):
+        return None
+    return 'script_ext', {'driver': 'accessor', 'args': {'object': i['object'], 'field': i['field']}}, lambda o: bool(o.get('mismatch'))
+
+
+def engine_finding(site, detail, inputs):
+    from engine import Finding
+    f = Finding(site, 'post', detail, None, 0, [], inputs)
+    f.havoc = ()
+    return f
